@@ -4023,7 +4023,10 @@ class mulgrid(object):
             self.identify_neighbours()
             self.setup_block_name_index()
             self.setup_block_connection_name_index()
-        else: print('Grid selection contains columns with more than 4 nodes: not supported.')
+        else:
+            print('Grid selection contains columns with more than 4 nodes: not supported.')
+            # (remove any midside nodes already created:)
+            for n in sidenodes.values(): self.delete_node(n.name)
 
     def refine_layers(self, layers = [], factor = 2, chars = ascii_lowercase,
                       spaces = True):
